@@ -98,3 +98,31 @@ func VerifC02_storeToNullVariableRule() {
 	sym.Reach("executed")
 	sym.Assert((err1 == nil) == (err2 == nil) && c1.stackPointer == c2.stackPointer, "Store to the null variable and Drop differ")
 }
+
+// VerifC02_registerStoreMatchesNamedStore: with local-variable registers on,
+// `x = v` is StoreRegister <slot>; with them off it is Store "x". Both must
+// accept/reject the same values and leave the same value and type in x.
+func VerifC02_registerStoreMatchesNamedStore() {
+	tOld := sym.Choice("variableType", 8)
+	tNew := sym.Choice("valueType", 8)
+	mode := sym.Choice("mode", 3)
+	old := c01Int("old", tOld)
+	v := c02Operand("v", tNew, sym.Bool("const"))
+
+	c1 := c03SymCtx(mode, "x", old)
+	_ = c1.push(v)
+	err1 := storeByteCode(c1, "x")
+
+	c2 := c03SymCtx(mode, "y", 0)
+	c2.symbols.AllocateLocals([]string{"x"})
+	sym.Assert(c2.symbols.LocalsBank() != nil && c2.symbols.LocalsBank().SetRegister(0, old), "could not set up the register bank")
+	_ = c2.push(v)
+	err2 := storeRegisterByteCode(c2, 0)
+	sym.Reach("executed")
+	sym.Assert((err1 == nil) == (err2 == nil), "an assignment is accepted with registers on and rejected with them off (or the reverse)")
+	if err1 == nil && err2 == nil {
+		v1, _ := c1.get("x")
+		v2, _ := c2.symbols.LocalsBank().GetRegister(0)
+		sym.Assert(v1 == v2, "an assignment leaves a different value or type with registers on and off")
+	}
+}
